@@ -273,12 +273,19 @@ func (g *Grammar) HasQualifiers() bool {
 // RenameRules renames the rules so that their names sort differently
 // relative to the token names (lox orders symbols by name in several places).
 // Scheme 1: Ea, Eb, Ec, .. (upper-case initial: before most token names and
-// with the start rule first).
+// with the start rule first). Scheme 2: zr, yr, xr, .. (name order is the
+// reverse of declaration order, so that rule numbers and the numbers of the
+// states reached on them run in opposite directions).
 func (g *Grammar) RenameRules(scheme int) {
-	if scheme != 1 {
-		return
-	}
-	for i := range g.Rules {
-		g.Rules[i].Name = "E" + string(rune('a'+i))
+	switch scheme {
+	case 1:
+		for i := range g.Rules {
+			g.Rules[i].Name = "E" + string(rune('a'+i))
+		}
+	case 2:
+		// name order is the reverse of declaration order
+		for i := range g.Rules {
+			g.Rules[i].Name = string(rune('z'-i)) + "r"
+		}
 	}
 }
